@@ -224,6 +224,38 @@ def coder_property_sweep(rng):
     return out
 
 
+def aes_property_sweep():
+    """The 7zAES coder property in every shape a header can carry: the one-byte form (no salt, no IV) and the long
+    form, each with every key-stretching exponent class (0, the writer's 19, the decoder's bound 24, just above it, the
+    largest 0x3E, the unhashed 0x3F), truncated and empty properties - in a content folder and in the folder of an
+    encrypted header, opened WITH a password (without one the call stops at PasswordRequired before any of it is looked
+    at). 2^25 rounds of SHA-256 already take longer than any call may; 2^62 never end."""
+    members = [("a.bin", bytes(range(64)) * 3)]
+    out = []
+    aes = [{"id": arclib.FILTER_COPY}, {"id": arclib.FILTER_CRYPTO_AES256_SHA256}]
+    for mode, label in (("raw", "AESraw"), ("encrypted", "AEShdr")):
+        try:
+            data = arclib.write_archive(members, filters=aes, password="pw", header=mode)
+        except Exception:  # noqa
+            continue
+        payload, hdr = split_archive(data)
+        i = hdr.find(b"\x06\xf1\x07\x01")
+        if i < 0 or hdr[i + 4] >= 0x80:
+            continue
+        n = hdr[i + 4]
+        props = hdr[i + 5:i + 5 + n]
+        shapes = [("empty", b"")]
+        for cyc in (0x00, 0x13, 0x18, 0x19, 0x1E, 0x30, 0x3E, 0x3F):
+            shapes.append(("short-%02x" % cyc, bytes([cyc])))
+            shapes.append(("short2-%02x" % cyc, bytes([cyc, 0x00])))
+            shapes.append(("long-%02x" % cyc, bytes([(props[0] & 0xC0) | cyc]) + props[1:]))
+            shapes.append(("flags-nosizes-%02x" % cyc, bytes([0xC0 | cyc])))
+            shapes.append(("truncated-%02x" % cyc, bytes([(props[0] & 0xC0) | cyc]) + props[1:len(props) // 2]))
+        for nm, pr in shapes:
+            out.append((label, "aesprop-" + nm, seal(payload, hdr[:i + 4] + bytes([len(pr)]) + pr + hdr[i + 5 + n:])))
+    return out
+
+
 def raw_count_mutations(rng, data):
     """Overwrite NUMBER fields in place with huge values (the serialiser would refuse some of them)."""
     payload, hdr = split_archive(data)
@@ -338,6 +370,8 @@ def run(ctx):
         add("synthetic:" + lab, m, None, seq=["getnames"])
     for fam, lab, m in coder_property_sweep(rng):
         add(fam + ":" + lab, m, None, seq=[rng.choice(["extractall", "testzip"]), "extractall"])
+    for fam, lab, m in aes_property_sweep():
+        add(fam + ":" + lab, m, "pw", seq=["getnames", rng.choice(["extractall", "testzip"])])
     # degenerate inputs
     for blob in (b"", b"7z", b"7z\xbc\xaf\x27\x1c", b"7z\xbc\xaf\x27\x1c\x00\x04" + bytes(24), seal(b"", b""), seal(b"", b"\x01"), seal(b"", b"\x17"),
                  seal(b"", b"\x01\x00"), seal(b"", b"\x01\x05"), seal(b"", b"\x01\x04\x06")):
